@@ -161,8 +161,9 @@ Definition with_dead (m : mstate) (fams creds : list nat) : mstate :=
 Fixpoint dead_ok_from (m : mstate) (i : nat) (cs : list cinfo) (probes : list (option payload)) : bool :=
   match cs, probes with
   | c :: cs', p :: ps' =>
-      (if (memn (ci_family c) (m_dead m) || memn i (m_dead_creds m))
-       then match ci_kind c, p with KCode, _ => true | _, None => true | _, Some _ => false end
+      (* a dead family covers the tokens minted by the token endpoint; individually retired credentials of any kind *)
+      (if (match ci_kind c with KAccess | KRefresh => memn (ci_family c) (m_dead m) | _ => false end) || memn i (m_dead_creds m)
+       then match p with None => true | Some _ => false end
        else true) && dead_ok_from m (S i) cs' ps'
   | _, _ => true
   end.
@@ -188,7 +189,7 @@ Fixpoint monitor_from (judge : judge_t) (m : mstate) (steps : list (op * obs * l
   end.
 
 Definition monitor (judge : judge_t) (c : hcase) : option string :=
-  match c with HCase cfg cls steps => monitor_from judge (m0 cls) (impl_trace c) end.
+  monitor_from judge (m0 (case_clients c)) (impl_trace c).
 
 Definition same_probes (m : mstate) (pr : list (option payload)) : bool := probes_eqb (m_prev m) pr.
 
@@ -299,7 +300,9 @@ Definition judge_C03 (cfg : config) : judge_t := fun m o ob pr =>
       | None => (None, [], [])
       end
   | OAuthorize a =>
-      if String.eqb (o_err ob) "" && negb (String.eqb (az_challenge a) "") then
+      (* the PKCE rules concern responses that carry a code; response_type=token has none *)
+      if String.eqb (o_err ob) "" && negb (String.eqb (az_challenge a) "")
+         && match az_rtype a with RToken => false | _ => true end then
         if String.eqb (az_method a) "S256" then (None, [], [])
         else if (String.eqb (az_method a) "plain" || String.eqb (az_method a) "") then
           if cf_pkce_plain cfg then (None, [], []) else (Some "plain_challenge_accepted_although_disabled", [], [])
@@ -333,7 +336,7 @@ Fixpoint payloads_ok_from (cs : list cinfo) (probes : list (option payload)) : b
   match cs, probes with
   | c :: cs', p :: ps' =>
       match p with
-      | Some pl => ckind_eqb (pl_use pl) (ci_kind c) && Nat.eqb (pl_client pl) (ci_client c) && String.eqb (pl_subject pl) (ci_subject c)
+      | Some pl => ckind_eqb (pl_use pl) (match ci_kind c with KImplicit => KAccess | k => k end) && Nat.eqb (pl_client pl) (ci_client c) && String.eqb (pl_subject pl) (ci_subject c)
                    && list_eqb (pl_scopes pl) (ci_scopes c) && list_eqb (pl_aud pl) (ci_aud c)
       | None => true
       end && payloads_ok_from cs' ps'
@@ -349,7 +352,7 @@ Fixpoint payload_monitor_from (m : mstate) (steps : list (op * obs * list (optio
       else Some "active_token_reported_with_foreign_client_subject_scope_or_audience"
   end.
 Definition payload_monitor (c : hcase) : option string :=
-  match c with HCase cfg cls steps => payload_monitor_from (m0 cls) (impl_trace c) end.
+  payload_monitor_from (m0 (case_clients c)) (impl_trace c).
 
 (* ------------------------------------------------------------------ C05 *)
 Definition judge_C05 (cfg : config) : judge_t := fun m o ob pr =>
@@ -403,18 +406,43 @@ Definition judge_C05 (cfg : config) : judge_t := fun m o ob pr =>
   end.
 
 (* ------------------------------------------------------------------ C07: an active probe never carries a passed expiry *)
-Fixpoint clock_from (t : Z) (steps : list (op * obs * list (option payload))) : option string :=
+(* position of the first access token (from the token or the authorization endpoint) among the minted credentials *)
+Fixpoint minted_access_pos (l : list ckind) : option nat :=
+  match l with
+  | [] => None
+  | KAccess :: _ | KImplicit :: _ => Some 0
+  | _ :: r => option_map S (minted_access_pos r)
+  end.
+
+(* an advertised expires_in (whole seconds) lies within one second of the expiry the token's introspection reports *)
+Definition advertised_ok (t : Z) (nprev : nat) (ob : obs) (pr : list (option payload)) : bool :=
+  if String.eqb (o_err ob) "" then
+    match minted_access_pos (o_minted ob) with
+    | Some j =>
+        match nth_error pr (nprev + j) with
+        | Some (Some pl) =>
+            match pl_exp pl with
+            | Some e => Z.ltb (Z.abs (o_expires_in ob * 1000 - (e - t))) 1000
+            | None => true
+            end
+        | _ => true
+        end
+    | None => true
+    end
+  else true.
+
+Fixpoint clock_from (t : Z) (nprev : nat) (steps : list (op * obs * list (option payload))) : option string :=
   match steps with
   | [] => None
   | (o, ob, pr) :: rest =>
       let t' := match o with OAdvance ms => (t + ms)%Z | _ => t end in
       if forallb (fun p => match p with Some pl => match pl_exp pl with Some e => Z.leb t' e | None => true end | None => true end) pr
       then
-        (* an advertised expires_in must not promise more than the recorded expiry of the minted access token *)
-        clock_from t' rest
+        if advertised_ok t' nprev ob pr then clock_from t' (List.length pr) rest
+        else Some "advertised_expires_in_differs_from_the_honoured_expiry"
       else Some "token_reported_active_after_its_expiry"
   end.
-Definition monitor_C07 (c : hcase) : option string := clock_from 0%Z (impl_trace c).
+Definition monitor_C07 (c : hcase) : option string := clock_from 0%Z 0 (impl_trace c).
 
 (* ------------------------------------------------------------------ C16 *)
 Definition judge_C16 (cfg : config) : judge_t := fun m o ob pr =>
@@ -483,11 +511,11 @@ Definition check_with (mon : hcase -> option string) (c : hcase) : verdict := V 
 
 Definition check_C01 := check_with (monitor judge_C01).
 Definition check_C02 := check_with (fun c => first_some (monitor judge_C02 c) (payload_monitor c)).
-Definition check_C03 := check_with (fun c => match c with HCase cfg _ _ => monitor (judge_C03 cfg) c end).
+Definition check_C03 := check_with (fun c => monitor (judge_C03 (case_cfg c)) c).
 Definition check_C04 := check_with (monitor judge_C04).
-Definition check_C05 := check_with (fun c => match c with HCase cfg _ _ => first_some (monitor (judge_C05 cfg) c) (payload_monitor c) end).
+Definition check_C05 := check_with (fun c => first_some (monitor (judge_C05 (case_cfg c)) c) (payload_monitor c)).
 Definition check_C07 := check_with monitor_C07.
 Definition check_C08 := check_with (monitor judge_C08).
 Definition check_C09 := check_with payload_monitor.
-Definition check_C16 := check_with (fun c => match c with HCase cfg _ _ => first_some (monitor (judge_C16 cfg) c) (payload_monitor c) end).
-Definition check_C17 := check_with (fun c => match c with HCase cfg _ _ => monitor (judge_C17 cfg) c end).
+Definition check_C16 := check_with (fun c => first_some (monitor (judge_C16 (case_cfg c)) c) (payload_monitor c)).
+Definition check_C17 := check_with (fun c => monitor (judge_C17 (case_cfg c)) c).
